@@ -52,6 +52,8 @@ type VerifEtcd struct {
 	revokes   int
 	// fault injection (publisher harness): the next n calls of the kind fail
 	failGrant, failPut, failKA, failRevoke int
+	hangGets int // upcoming Gets that hang until their context expires
+	deadGets int // consecutive Gets that arrived with (or ended in) an expired context
 	// revisions: events that happen after a snapshot was read and before the watch is established again (the gap);
 	// a watch that asks for revision r is told the gap events with ModRevision >= r (r == 0: from now on, none)
 	gap     map[string][]*clientv3.Event
@@ -164,11 +166,30 @@ func verifCovers(watchKey string, prefix bool, key string) bool {
 	return key == watchKey
 }
 
-func (e *VerifEtcd) Get(_ context.Context, key string, opts ...clientv3.OpOption) (*clientv3.GetResponse, error) {
+func (e *VerifEtcd) Get(ctx context.Context, key string, opts ...clientv3.OpOption) (*clientv3.GetResponse, error) {
 	prefix := verifIsPrefix(key, opts)
+	// the context of the attempt: a request with an expired context fails at once; an armed `hang` makes this Get wait
+	// until its context expires (etcd does not answer in time)
+	e.mu.Lock()
+	hang := e.hangGets > 0
+	if hang {
+		e.hangGets--
+	}
+	e.mu.Unlock()
+	if hang {
+		<-ctx.Done()
+	}
+	if err := ctx.Err(); err != nil {
+		e.mu.Lock()
+		e.gets++
+		e.deadGets++
+		e.mu.Unlock()
+		return nil, err
+	}
 	e.mu.Lock()
 	defer e.mu.Unlock()
 	e.gets++
+	e.deadGets = 0
 	if e.getErrs > 0 {
 		e.getErrs--
 		return nil, errVerifFault
@@ -367,6 +388,40 @@ func (e *VerifEtcd) FailGets(n int) {
 	e.mu.Unlock()
 }
 
+// HangGets makes the next n Get calls wait until their context is done (a request timeout).
+func (e *VerifEtcd) HangGets(n int) {
+	e.mu.Lock()
+	e.hangGets, e.deadGets = n, 0
+	e.mu.Unlock()
+}
+
+// AwaitWatchOrDeadGets waits until the watch on the prefix is established again (true) or until `dead` consecutive Gets
+// have failed on an expired context after the armed hangs (false: the load loop cannot succeed any more — every further
+// attempt uses the same expired context).
+func (e *VerifEtcd) AwaitWatchOrDeadGets(prefix string, dead int) bool {
+	deadline := time.After(verifLongWait())
+	tick := time.NewTicker(5 * time.Millisecond)
+	defer tick.Stop()
+	for {
+		select {
+		case k := <-e.ready:
+			if k == prefix {
+				return true
+			}
+		case <-tick.C:
+			e.mu.Lock()
+			d := e.deadGets
+			e.mu.Unlock()
+			if d >= dead {
+				return false
+			}
+		case <-deadline:
+			verifGaveUp()
+			return false
+		}
+	}
+}
+
 // Gets: number of Get calls so far.
 func (e *VerifEtcd) Gets() int {
 	e.mu.Lock()
@@ -449,7 +504,7 @@ func (e *VerifEtcd) DropWatches() {
 	e.store = map[string]verifStored{}
 	e.kaChans = map[clientv3.LeaseID]chan *clientv3.LeaseKeepAliveResponse{}
 	e.failGrant, e.failPut, e.failKA, e.failRevoke = 0, 0, 0, 0
-	e.gap, e.reqRev, e.getErrs = map[string][]*clientv3.Event{}, map[string]int64{}, 0
+	e.gap, e.reqRev, e.getErrs, e.hangGets, e.deadGets = map[string][]*clientv3.Event{}, map[string]int64{}, 0, 0, 0
 	e.mu.Unlock()
 }
 
@@ -688,6 +743,7 @@ type VerifSession struct {
 	Rec       *VerifRecorder
 	Late      *Subscriber // a subscriber that joined the existing watch later (ops join / joinmid)
 	awaited   bool        // the first watch of the session has been awaited
+	LoadStuck bool        // load cannot finish: every attempt runs on an expired context
 	Dead      bool        // cluster.reload deadlocked: the cluster is unusable, the rest of the section is skipped
 }
 
@@ -718,6 +774,10 @@ func (s *VerifSession) reload(release chan struct{}) bool {
 
 // LateObs prints the late joiner's view: ` late=<values> lmap=<k:v,…>` (empty before it joined).
 func (s *VerifSession) LateObs() string {
+	if s.LoadStuck {
+		s.LoadStuck = false
+		return " loadstuck=1"
+	}
 	if s.Dead {
 		return " dead=1"
 	}
@@ -822,6 +882,22 @@ func (s *VerifSession) Exec(op []string) bool {
 		s.Etcd.FailGets(verifh.Atoi(op[1]))
 		s.Etcd.Push(s.Prefix, clientv3.WatchResponse{CompactRevision: 1, Canceled: true})
 		s.Etcd.AwaitWatch(s.Prefix)
+		s.Etcd.Sync(s.Prefix)
+	case "reloadt":
+		// reloadt <n> <k>:<v> …: compaction; the first n Gets of the load do not answer before their request timeout
+		// (RequestTimeout lowered to 100 ms for the operation); etcd answers every later Get whose context is alive
+		s.Etcd.SetSnapshot(s.Prefix, VerifParseKVs(s.Key, op[2:]))
+		old := internal.RequestTimeout
+		internal.RequestTimeout = 100 * time.Millisecond
+		s.Etcd.HangGets(verifh.Atoi(op[1]))
+		s.Etcd.Push(s.Prefix, clientv3.WatchResponse{CompactRevision: 1, Canceled: true})
+		ok := s.Etcd.AwaitWatchOrDeadGets(s.Prefix, verifh.Atoi(op[1])+2)
+		internal.RequestTimeout = old
+		if !ok {
+			// load retries for ever with a context that has expired: the cluster never watches this key again
+			s.Dead, s.LoadStuck = true, true
+			return true
+		}
 		s.Etcd.Sync(s.Prefix)
 	case "reloadgap":
 		// reloadgap <k>:<v> … / p:<k>:<v> d:<k> …: compaction; after the snapshot was read and before the watch is
@@ -1129,6 +1205,11 @@ func VerifC13Gen(r *verifh.Rng, nsecQuick, nsecThorough int, bigEvery int) []ver
 			default:
 				ops = append(ops, "closech")
 			}
+		}
+		if !big && i%verifh.Scale(60, 400) == 37 {
+			// the first Get of a load runs into its request timeout (100 ms + the real 1 s cool-down)
+			snap := snapshot(cur)
+			ops = append(ops, strings.TrimSpace("reloadt 1 "+strings.Join(snap, " ")))
 		}
 		if !big && i%verifh.Scale(60, 400) == 7 {
 			// a failed Get costs about a second of real time (load's cool-down): a few per run
